@@ -139,7 +139,8 @@ ENGINES['etspes'] = {
     'src': ['harness/ets_pes.c'],
     'sim_src': ['sim/alloc.c', 'sim/umem_sim.c'],
     'inc_first': ['shim'],
-    'repo_src': BUF_SRC + ['lib/upipe-ts/upipe_ts_decaps.c', 'lib/upipe-ts/upipe_ts_pes_decaps.c'],
+    'repo_src': BUF_SRC + ['lib/upipe-ts/upipe_ts_decaps.c', 'lib/upipe-ts/upipe_ts_pes_decaps.c',
+                           'lib/upipe-ts/upipe_ts_pes_encaps.c', 'lib/upipe-ts/upipe_ts_encaps.c'],
     'track_alloc': True,
     'real': ['lib/upipe-ts/upipe_ts_decaps.c', 'lib/upipe-ts/upipe_ts_pes_decaps.c', 'include/upipe/ubuf_block.h',
              'include/upipe/uref_clock.h', 'include/upipe/upipe_helper_output.h', 'lib/upipe/ubuf_block_mem.c', 'lib/upipe/uref_std.c',
@@ -304,15 +305,17 @@ PROPS['C15'] = {
              '(5 stream ids, no timestamp / PTS / PTS+DTS incl. values next to the 33-bit wrap, 0-29 header stuffing octets, bounded and unbounded length) and 188-octet TS packets '
              '(adaptation fields of every length 0..183, PCR, random access indicator, PES header cut across packets), a channel that duplicates packets, inserts adaptation-only packets, '
              'loses runs of 1-13 packets or overwrites 1-6 octets anywhere, buffers of up to 3 segments, allocation failures inside inputs, release at any packet; through '
-             'ts_decaps -> pes_decaps into a recording sink. Distinct = distinct plan hash.'),
+             'ts_decaps -> pes_decaps into a recording sink. Two further scenarios put the real encapsulation in front: (a) the units go through pes_encaps (stream id, minimum header size, PTS / DTS from 27 MHz dates with sub-90 kHz remainders) and the reference TS packetiser; (b) the harness plays the mux and pulls packet after packet out of ts_encaps along the simulated mux clock (PES alignment on/off, PCR interval, octet rate, mux step, continuity counter start), every packet and PES header is checked by a reference parser, then the sequence goes through the same channel and decapsulation. Loss bursts of 15 and 16 packets. Distinct = distinct plan hash.'),
     'assumptions': ['one simulated thread; nondeterminism = what the channel does to the packet sequence, how packets are segmented in memory, when the application lets go, allocator failures',
-                    'decapsulation side only: upipe_ts_encaps.c / upipe_ts_pes_encaps.c (the round-trip clause) are not driven by this check',
+                    'round trip through ts_encaps is compared unit by unit with PES alignment; without alignment (units overlap PES packets) only the elementary stream as a whole and the well-formedness of every packet and PES header are decided',
+                    'ts_encaps is driven without allocation failures (its error paths leave a half-detached buffer behind; out of scope of C15); upipe_ts_split.c and upipe_ts_pid_filter.c are not driven',
+                    'a gap of exactly 16 packets is invisible in a 4-bit counter: no flag is demanded then',
                     'bitstream/mpeg/ts.h and pes.h are hand-written stand-ins; the packets fed are produced by an independent reference packetiser in the harness, so a layout error in the stand-ins shows as a mismatch',
                     'with corrupt packets only memory safety (ASan, umem red zones), termination, leak freedom and "no more octets out than payload octets in" are decided',
                     'a gap must be flagged on the next buffer that reaches the sink; the first buffer ever delivered may or may not be flagged',
                     'after an injected allocation failure only lifecycle and leak oracles stay armed'],
-    'technique': 'deterministic simulation with fault injection: a reference PES/TS packetiser feeds generated access units through a simulated channel (duplicates, adaptation-only packets, lost runs, corrupt octets, segmented buffers, allocation failures, release in mid-stream) into the real ts_decaps and pes_decaps; recovered units, timestamps, markers and discontinuity flags compared with what was carried; minimised replay files',
-    'level_note': 'sampling, not enumeration; decapsulation side only (encapsulation pipes not driven); trusted base = sim/*, the packetiser in harness/ets_pes.c, shim/bitstream/mpeg/{ts,pes}.h',
+    'technique': 'deterministic simulation with fault injection: generated access units go through a reference PES/TS packetiser, or through the real pes_encaps, or through the real ts_encaps pulled by a simulated mux clock, then through a simulated channel (duplicates, adaptation-only packets, lost runs, corrupt octets, segmented buffers, allocation failures, release in mid-stream) into the real ts_decaps and pes_decaps; reference parser for every emitted packet and PES header; recovered units, timestamps, markers and discontinuity flags compared with what was carried; minimised replay files',
+    'level_note': 'sampling, not enumeration; ts_split / pid_filter not driven, ts_encaps without allocation faults; trusted base = sim/*, the packetiser and parsers in harness/ets_pes.c, shim/bitstream/mpeg/{ts,pes}.h',
     'design_ref': 'DESIGN.md section 5, C15',
 }
 
@@ -373,7 +376,7 @@ LEVEL_TEXT = {
     'C08': 'Seeded exploration of producers/consumers sleeping on simulated event descriptors around the real uqueue; any quiescent state with work left is a lost wake-up. Found and fixed the counter-based wake-up defect; evidence, not proof.',
     'C06': 'Seeded exploration of thread interleavings of the real worker, transfer and queue pipes between an application thread and worker / producer threads: every buffer arrives exactly once, in order, under the flow definition it was sent under; end of source only after the last buffer; a full queue holds and later delivers; transferred pipes are only entered from the worker thread or under the freeze mutex; forwarded events arrive on the application thread; everything terminates and nothing stays allocated. Evidence, not proof.',
     'C16': 'Seeded transport histories through the real psi_merge, psi_split and psi_join: the merger returns exactly the sections the transport delivered, in order, once, complete, and picks up again at the next unit start after a flagged loss; every output is a well-formed section whatever comes in; the splitter delivers each section unmodified to exactly the outputs whose filter/mask match; the joiner forwards every section of every input; nothing stays allocated. Evidence, not proof.',
-    'C15': 'Seeded packet sequences from an independent reference packetiser through the real ts_decaps and pes_decaps: every access unit the channel did not touch is recovered octet for octet with its DTS, PTS-DTS delay, unit start / PES end / random access markers; duplicates and adaptation-only packets change nothing; every continuity gap is flagged on the next buffer delivered and nothing else is; arbitrary corrupt packets cause no out-of-bounds access, no leak, no output out of nothing. Decapsulation side only. Evidence, not proof.',
+    'C15': 'Seeded packet sequences from an independent reference packetiser through the real ts_decaps and pes_decaps: every access unit the channel did not touch is recovered octet for octet with its DTS, PTS-DTS delay, unit start / PES end / random access markers; duplicates and adaptation-only packets change nothing; every continuity gap is flagged on the next buffer delivered and nothing else is; arbitrary corrupt packets cause no out-of-bounds access, no leak, no output out of nothing; units wrapped by the real pes_encaps and ts_encaps (packets 188 octets, sync, PID, continuity counter +1 per payload packet, PES headers as the standard lays them out) come back intact. Evidence, not proof.',
     'C09': 'Seeded exploration of concurrent use/release on the real urefcount with a harness-side count as oracle (destructor exactly once, never early). Evidence, not proof.',
 }
 
